@@ -292,6 +292,28 @@ def run_case(case, ctx):
         e3 = numpy.sqrt(numpy.sum(numpy.abs(d - ref) ** 2, axis=(1, 2)))
         i = int(numpy.argmax(e3 / b))
         ctx.check("closed==expm", float(e3[i]), float(b[i]), dict(det, index=i))
+        # ---- (1b) the SAME propagator and Hamiltonian objects after the Hamiltonian was changed: every run follows the generator
+        #      the Hamiltonian defines at the time of the call (new matrix; rotating-wave frame switched on later)
+        Hd2 = 0.8 * Hblk + numpy.diag([float("%.4g" % v) for v in rng.normal(size=dim) * 0.1 * hs])
+        with ctx.lib("re-used propagator after the Hamiltonian changed", mechanism=None):
+            H1.data = Hd2.copy()
+            d_b = numpy.array(p.propagate(qr.ReducedDensityMatrix(data=rho0.copy()), method=method, Nref=nref).data)
+            H1.set_rwa([0, split])
+            ev_c = p.propagate(qr.ReducedDensityMatrix(data=rho0.copy()), method=method, Nref=nref)
+            c_rwa = bool(ev_c.is_in_rwa)
+            ev_c.convert_from_RWA(H1)
+            d_c = numpy.array(ev_c.data)
+        L2 = gksl.hamiltonian_part(Hd2)
+        b2, x2, M2 = gksl.taylor_bounds(L2, case["dt"] / nref, order, nref, case["Nt"], 1.0)
+        b2 = b2 * 4 + 1e-12
+        ref2 = gksl.propagate_exact(L2, rho0, numpy.array(t.data))
+        e_b = numpy.sqrt(numpy.sum(numpy.abs(d_b - ref2) ** 2, axis=(1, 2)))
+        i = int(numpy.argmax(e_b / b2))
+        ctx.check("closed==expm", float(e_b[i]), float(b2[i]), dict(det, index=i, what="same propagator after ham.data was assigned"))
+        ctx.require("closed:rwa==lab", c_rwa, dict(det, what="evolution not flagged as rotating-frame after set_rwa on a used Hamiltonian"))
+        e_c = numpy.sqrt(numpy.sum(numpy.abs(d_c - ref2) ** 2, axis=(1, 2)))
+        i = int(numpy.argmax(e_c / b2))
+        ctx.check("closed:rwa==lab", float(e_c[i]), float(b2[i]), dict(det, index=i, what="same propagator after set_rwa was switched on (converted back)"))
         # ---- (2) same physics with a large optical offset: RWA-then-converted-back must equal the laboratory-frame dynamics
         with ctx.lib("closed-system propagation (RWA, converted back)", mechanism=None):
             H2 = qr.Hamiltonian(data=Hlab.copy())
